@@ -99,7 +99,7 @@ func checkMapRanges(r *Run, cg *CallGraph, reach map[*types.Func]*cgEdge) {
 			v := classifyMapRange(p, cg, fd, rs)
 			if v.ok {
 				r.Pass("C05-R1-map-order", construct, rs.Pos(), "%s", v.reason)
-			} else if reason, inTbl := r.InTable(tbl, "c05_map_ranges", shortPkg(p.PkgPath)+"."+funcDeclName(fd)+":"+exprString(r.Fset, rs.X)); inTbl {
+			} else if reason, inTbl := r.InTable(tbl, "c05_map_ranges", shortPkg(p.PkgPath)+"."+funcDeclName(fd)+":"+lastNameOf(rs.X)); inTbl {
 				r.Pass("C05-R1-map-order", construct, rs.Pos(), "table: %s", reason)
 			} else {
 				r.Fail("C05-R1-map-order", construct, rs.Pos(), "iteration over a Go map whose body is order-sensitive (%s): repeated translation of the same query can emit different SQL or parameters", v.reason)
@@ -912,4 +912,16 @@ func checkSentinelIndexes(r *Run, cg *CallGraph, reach map[*types.Func]*cgEdge) 
 		}
 	}
 	r.Note("%s: %d sentinel-valued indexes examined", rule, n)
+}
+
+// lastNameOf: the name a ranged-over expression ends in (`s.aliases`, `s.bindings.aliases` and `aliases` are all
+// "aliases"); triage tables name the map by it, so moving a field into a sub-struct does not lose the entry.
+func lastNameOf(e ast.Expr) string {
+	switch x := ast.Unparen(e).(type) {
+	case *ast.Ident:
+		return x.Name
+	case *ast.SelectorExpr:
+		return x.Sel.Name
+	}
+	return types.ExprString(e)
 }
